@@ -37,6 +37,10 @@ IntDiff == (IF Rec.out = Expected THEN {} ELSE {"emitted"})
    \cup (IF OneToken THEN {} ELSE {"not-one-token"})
    \cup (IF Rec.ok = 1 /\ Rec.errs = <<>> THEN {} ELSE {"not-accepted"})
    \cup (IF Rec.dec = Rec.v THEN {} ELSE {"decoded"})
-Diff == IF Rec.t \in {"dbl", "flt"} THEN FloatDiff ELSE IntDiff
+(* ASCII-formatted arrays: one decimal item per element, comma separated, decoded element by element *)
+ArrDiff == (IF Rec.out = JoinWith(44, [i \in 1..Len(Rec.v) |-> Dec(Rec.v[i])]) THEN {} ELSE {"emitted"})
+      \cup (IF Rec.ok = 1 /\ Rec.errs = <<>> THEN {} ELSE {"not-accepted"})
+      \cup (IF Rec.dec = Rec.v THEN {} ELSE {"decoded"})
+Diff == IF Rec.t \in {"dbl", "flt"} THEN FloatDiff ELSE IF Rec.t = "arr" THEN ArrDiff ELSE IntDiff
 Conforms == Diff = {} \/ PrintT(<<"MISMATCH", l, Diff>>)
 =============================================================================
